@@ -104,7 +104,25 @@ pub broadcast proof fn b_ascii_len(s: &str)
 {
     lemma_ascii_str(s);
 }
-pub broadcast group group_lem { b_slice_ok_ascii, b_slice_ascii, b_ascii_len }
+/// in an ASCII string byte offsets and char indices coincide
+pub broadcast proof fn b_ascii_boff(s: Seq<char>, i: int)
+    requires is_ascii_chars(s), 0 <= i <= s.len()
+    ensures #[trigger] boff(s, i) == i
+{
+    let t = s.subrange(0, i);
+    assert(is_ascii_chars(t)) by {
+        assert forall|k: int| 0 <= k < t.len() implies (#[trigger] t[k] as u32) < 128 by { assert(t[k] == s[k]); }
+    }
+    is_ascii_chars_encode_utf8(t);
+}
+pub broadcast proof fn b_ascii_cidx(s: Seq<char>, b: int)
+    requires is_ascii_chars(s), 0 <= b <= s.len()
+    ensures #[trigger] cidx(s, b) == b
+{
+    b_ascii_boff(s, b);
+    axiom_cidx_boff(s, b);
+}
+pub broadcast group group_lem { b_slice_ok_ascii, b_slice_ascii, b_ascii_len, b_ascii_boff, b_ascii_cidx }
 
 // ------------------------------------------------------------------ digit strings
 pub proof fn lemma_digits_val_1(s: Seq<char>)
